@@ -112,3 +112,10 @@ CASES += [
         (RDMF, "                # the operators are kept at their last computed point once\n                # the cut-off (or the end of their time axis) is reached\n                indxR = min(indxR + stride, cutoff_indx - 1)\n                \n            pr.data[indx,:,:] = rho2 \n            indx += 1             \n",
                "            pr.data[indx,:,:] = rho2 \n            indx += 1             \n            if indxR < cutoff_indx-1:\n                indxR += 1\n", 1)]},
 ]
+
+CASES += [
+    {"name": "tensor form writes its result into the operand's own array (seeded change of round 7)", "kind": "mutant", "rule": "C07-J", "edits": [
+        ("quantarhei/qm/liouvillespace/superoperator.py", "            oper.data = numpy.tensordot(self.data, oper.data)", "            oper.data[:,:] = numpy.tensordot(self.data, oper.data)", 1)]},
+    {"name": "tensor form rebinds the operand's data through a local name", "kind": "twin", "edits": [
+        ("quantarhei/qm/liouvillespace/superoperator.py", "            oper.data = numpy.tensordot(self.data, oper.data)", "            res = numpy.tensordot(self.data, oper.data)\n            oper.data = res", 1)]},
+]
